@@ -305,8 +305,7 @@ def run_cbmc(proof, gb, tmp, log, backend=None, extra=None, timeout=None):
 
 
 def trace_for(proof, gb, tmp, log, propname, backend=None):
-    r = run_cbmc(proof, gb, tmp, log, backend=backend, extra=["--trace", "--property", propname,
-                                                               "--trace-json-extended"],
+    r = run_cbmc(proof, gb, tmp, log, backend=backend, extra=["--trace", "--property", propname],
                  timeout=proof.get("timeout", 900))
     if not r["results"]:
         return None
